@@ -75,7 +75,7 @@ def expit(x):
     return 1 / (1 + np.exp(-x))
 
 
-def gen_data(rng, ytype, missing, saturated=False, force_n=None):
+def gen_data(rng, ytype, missing, saturated=False, force_n=None, degenerate=None):
     n = int(force_n or rng.integers(80, 260))
     V = rng.integers(0, 2, n).astype(float)
     W = rng.integers(0, 3, n).astype(float)
@@ -94,6 +94,24 @@ def gen_data(rng, ytype, missing, saturated=False, force_n=None):
              ).astype(float)
     wt = rng.integers(1, 5, n).astype(float) if rng.uniform() < 0.5 else np.round(rng.uniform(0.5, 3.0, n), 2)
     df = pd.DataFrame({'A': A, 'Y': Y, 'V': V, 'W': W, 'L': L, 'Z': Z, 'wt': wt})
+    # ill-scaled modifiers (calendar year, age in days): large uncentred values, tiny relative spread
+    df['yr'] = 2005.0 + rng.integers(-4, 5, n)
+    df['days'] = np.round(15000 + 2000 * rng.normal(size=n))
+    if degenerate:
+        # a rare covariate level (W = 3) in which everybody / nobody is treated, with outcomes unlike the rest:
+        # its fitted Pr(A=1|L) is 0 or 1, so its rows drop out of the estimating equations
+        k = int(rng.integers(1, 5))
+        ex = df.iloc[rng.integers(0, n, k)].copy()
+        ex['W'] = 3.0
+        ex['A'] = 1.0 if degenerate == 'treated' else 0.0
+        ex['Y'] = (ex['Y'] + 4.0) if ytype == 'continuous' else 1.0
+        df = pd.concat([df, ex], ignore_index=True).iloc[rng.permutation(n + k)].reset_index(drop=True)
+        n = n + k
+        A = df['A'].values
+        L = df['L'].values
+        V = df['V'].values
+    if rng.uniform() < 0.2:      # an unused column with missing values: those rows are dropped as documented
+        df['junk'] = np.where(rng.uniform(size=n) < 0.03, np.nan, 1.0)
     if missing != 'none':
         pm = expit(-1.8 + 0.6 * A + 0.5 * (L if not saturated else V))
         df.loc[rng.uniform(size=n) < pm, 'Y'] = np.nan
@@ -161,8 +179,9 @@ def reference(chk, df, expo, weights, missing, miss_den, ipmw_in_use=None):
     X = np.asarray(patsy.dmatrix(expo, cc))
     ww = np.ones(len(cc)) if w is None else w
     score = X.T @ (ww * (cc['A'].values - pi))
-    h_ok = bool(fm.converged) and float(np.max(np.abs(score))) <= 1e-7 * float(np.sum(ww)) \
-        and float(pi.min()) > 1e-6 and float(pi.max()) < 1 - 1e-6
+    # fitted probabilities numerically 0 / 1 (a stratum with everybody or nobody treated) are legitimate: those rows
+    # have A - pi = 0 and drop out; the score equations still hold
+    h_ok = bool(fm.converged) and float(np.max(np.abs(score))) <= 1e-7 * float(np.sum(ww))
     chk.h_checked += 1
     return {'cc': cc, 'w': np.ones(len(cc)) if w is None else np.asarray(w, dtype=float), 'pi': pi,
             'ipmw': ipmw_ref, 'h_ok': h_ok, 'weighted': w is not None}
@@ -291,9 +310,14 @@ def check_closed(chk, drv, df, ytype, p, weights, missing, expo, miss_den, seedi
     d = (a - pi) * w
     Sf = (Vm * (a * d)[:, None]).T @ (Vm * a[:, None])
     cond = np.linalg.cond(Sf) if np.all(np.isfinite(Sf)) else np.inf
-    if not cond < 1e6:
-        chk.discard('lhm ill-conditioned (cond > 1e6): outside the np.linalg.solve assumption')
+    # an ill-conditioned lhm (ill-scaled modifier) only loosens the *forward* comparison of psi in K; the property's
+    # own predicate, the residual of the estimating equations relative to its scale, is what a backward-stable solve
+    # keeps at rounding level whatever the conditioning, and is judged always
+    if not np.isfinite(cond):
+        chk.discard('lhm not finite')
         return None
+    case['cond_lhm'] = float(cond)
+    chk.count('cond_lhm:%s' % ('<1e6' if cond < 1e6 else '1e6-1e10' if cond < 1e10 else '>1e10'))
     case['impl_psi'] = None if psi is None else [float(x) for x in psi]
     case['impl_error'] = err
     arms_ok = all(len(set(cc.loc[cc[m] == lv, 'A'])) == 2 for m in ['V', 'W'] if ('A:%s' % m) in (labels or [])
@@ -342,8 +366,9 @@ def check_closed(chk, drv, df, ytype, p, weights, missing, expo, miss_den, seedi
         if ok:
             mpsi = [float(unrq(t)) for t in dec_list(rep['psi'], str)]
             case['model_psi'] = mpsi
-            # forward error of the float solve <= cond * 1e-15 * |psi| <= 1e-9 * |psi| for cond <= 1e6
-            ok = len(mpsi) == p and all(close(m, q, rtol=1e-8, atol=1e-9) for m, q in zip(mpsi, psi))
+            # forward error of the float solve <= ~cond * 1e-15 * max|psi| (normwise)
+            ftol = max(1e-8, 1e-13 * cond) * max(1.0, float(np.max(np.abs(psi))))
+            ok = len(mpsi) == p and all(abs(m - q) <= ftol + 1e-9 for m, q in zip(mpsi, psi))
         chk.k(ok, 'closed-form psi: model (Cramer, exact) vs implementation', {'case': case, 'model': rep})
         rep2, _ = drv.ask('snm_esteq', psi=enc_list(psi, rq), **kw)
         ok2 = rep2['status'] == 'ok'
@@ -411,11 +436,16 @@ def check_search(chk, df, ytype, p, weights, missing, expo, miss_den, closed, st
 def check_saturated(chk, drv, rng, ytype, weights, missing, seedinfo):
     expo = ['C(V)*C(W)', 'C(V)*C(W)*C(Z)', 'C(V)*C(Z)'][int(rng.integers(0, 3))]
     strata_cols = {'C(V)*C(W)': ['V', 'W'], 'C(V)*C(W)*C(Z)': ['V', 'W', 'Z'], 'C(V)*C(Z)': ['V', 'Z']}[expo]
+    # one time in two a rare level W = 3 is added in which everybody / nobody is treated (fitted probability 1 / 0):
+    # those strata carry weight n p (1 - p) = 0 in the closed form
+    degenerate = [None, None, 'treated', 'untreated'][int(rng.integers(0, 4))]
+    if degenerate and 'W' not in strata_cols:
+        expo, strata_cols = 'C(V)*C(W)', ['V', 'W']
     for _ in range(20):
-        df = gen_data(rng, ytype, missing, saturated=True, force_n=int(rng.integers(150, 320)))
+        df = gen_data(rng, ytype, missing, saturated=True, force_n=int(rng.integers(150, 320)), degenerate=degenerate)
         cc0 = df.dropna()
-        grp = cc0.groupby(strata_cols)['A']
-        if grp.nunique().min() == 2 and grp.count().min() >= 4:
+        grp = cc0.loc[cc0['W'] != 3].groupby(strata_cols)['A']
+        if grp.nunique().min() == 2 and grp.count().min() >= 4 and (not degenerate or (cc0['W'] == 3).any()):
             break
     else:
         chk.discard('could not draw a data set with both arms in every stratum')
@@ -433,12 +463,16 @@ def check_saturated(chk, drv, rng, ytype, weights, missing, seedinfo):
     keys = {}
     for i, key in enumerate(map(tuple, cc[strata_cols].values.tolist())):
         sid[i] = keys.setdefault(key, len(keys))
-    a, y = cc['A'].values, cc['Y'].values
+    a, y = cc['A'].values.astype(float), cc['Y'].values.astype(float)
+    live = np.ones(len(cc), dtype=bool)
     for s in range(len(keys)):
         idx = np.where(sid == s)[0]
         W_ = sum(F(float(w[i])) for i in idx)
         W1 = sum(F(float(w[i])) for i in idx if a[i] == 1)
         W0 = W_ - W1
+        if W1 == 0 or W0 == 0:
+            live[idx] = False        # everybody / nobody treated: p (1 - p) = 0, the stratum drops out
+            continue
         T1 = sum(F(float(w[i])) * F(float(y[i])) for i in idx if a[i] == 1)
         T0 = sum(F(float(w[i])) * F(float(y[i])) for i in idx if a[i] == 0)
         ps = W1 / W_
@@ -446,19 +480,21 @@ def check_saturated(chk, drv, rng, ytype, weights, missing, seedinfo):
         den += W_ * ps * (1 - ps)
     want = float(num / den)
     case['stratified_closed_form'] = want
-    chk.count('saturated:%s/%s' % ('w' if weights else 'nw', missing))
+    case['degenerate_stratum'] = degenerate
+    chk.count('saturated:%s/%s/%s' % ('w' if weights else 'nw', missing, degenerate or 'both-arms'))
     # 1e-7: the closed form does not pass through the fitted values (admits IRLS convergence error of the GLM)
     chk.d(close(psi[0], want, rtol=1e-7, atol=1e-9),
           'one-parameter SNM, saturated exposure model: psi = sum n p(1-p)(ybar1-ybar0) / sum n p(1-p)', case)
     if drv is not None:
-        kw = driver_args(a, y, res['ref']['pi'], w, res['Vm'])
-        rep, _ = drv.ask('snm_strat', s=enc_list(sid.tolist(), str), **kw)
+        # the model's theorem needs both arms in every stratum: it is fed the strata that carry weight
+        kw = driver_args(a[live], y[live], res['ref']['pi'][live], w[live], res['Vm'][live])
+        rep, _ = drv.ask('snm_strat', s=enc_list(sid[live].tolist(), str), **kw)
         ok = rep['status'] == 'ok' and close(float(unrq(rep['psi'])), psi[0], rtol=1e-7, atol=1e-9)
         if ok:
             # H: the reference GLM is a cell fit on these strata
             fits = [abs(float(unrq(t))) for t in dec_list(rep['fit'], str)]
             chk.h_checked += 1
-            ok = max(fits) <= 1e-7 * float(np.sum(w))
+            ok = max(fits) <= 1e-6 * float(np.sum(w))
         chk.k(ok, 'stratified closed form: model vs implementation', {'case': case, 'model': rep})
 
 
@@ -510,8 +546,10 @@ def run(chk, drv, rng, tier):
     keep = {}
     for rep in range(reps):
         for (ytype, p, weights, missing) in cells:
-            df = gen_data(rng, ytype, missing)
-            expo = EXPO[int(rng.integers(0, len(EXPO)))]
+            degenerate = [None, 'treated', 'untreated'][int(rng.integers(0, 3))] if rep % 3 == 2 else None
+            df = gen_data(rng, ytype, missing, degenerate=degenerate)
+            expo = EXPO[int(rng.integers(0, len(EXPO)))] if not degenerate else \
+                ['V + C(W) + L', 'C(W) + L + Z', 'C(V)*C(W) + L'][int(rng.integers(0, 3))]
             miss_den = ['A + L', 'A + V + L', 'A + W'][int(rng.integers(0, 3))]
             # how the SNM is written rotates with the repetition: product-first / swapped factors, stateful
             # transforms, random
@@ -520,6 +558,19 @@ def run(chk, drv, rng, tier):
                                {'rep': rep, 'tier': tier}, snm=snm)
             if res is not None and rep == 0:
                 keep[(ytype, p, weights, missing)] = (df, expo, miss_den, res)
+    # ill-scaled effect modifiers (calendar year, age in days): cond(lhm) up to ~1e13; D judges the residual
+    ill = ['A + A:yr', 'A:yr + A', 'A + A:yr + A:V', 'A + A:days', 'A + A:V + A:days', 'A + A:center(yr)']
+    k = 0
+    for rep in range(1 if tier == 'quick' else 6):
+        for ytype in ('continuous', 'binary'):
+            for weights in (False, True):
+                for missing in ('none', 'dropped', 'model_stab'):
+                    snm = ill[k % len(ill)]
+                    k += 1
+                    df = gen_data(rng, ytype, missing)
+                    check_closed(chk, drv, df, ytype, len(snm.split(' + ')), weights, missing,
+                                 ['V + L', 'V + W + L + Z'][k % 2], 'A + L', {'rep': rep, 'tier': tier, 'stream': 'ill'},
+                                 snm=snm)
     # saturated stream
     for rep in range(3 if tier == 'quick' else 20):
         for ytype in ('continuous', 'binary'):
